@@ -492,3 +492,39 @@ def same_decision(t1: Term, t2: Term) -> bool:
         if leaf(t1, asg) != leaf(t2, asg):
             return False
     return True
+
+
+def leaf_under(t: Term, asg: dict) -> Term:
+    """The value a join-built term yields under a truth assignment of its condition atoms
+    (atoms missing from `asg` count as False)."""
+    class _D(dict):
+        def __missing__(self, k):
+            return False
+    a = _D(asg)
+    while isinstance(t, tuple) and t and t[0] in ("phi", "ifexp") and len(t) == 4:
+        t = t[2] if _cond_value(t[1], a) else t[3]
+    return t
+
+
+def map_leaves(t: Term, f) -> Term:
+    """Apply f to the leaves of a join tree."""
+    if isinstance(t, tuple) and t and t[0] in ("phi", "ifexp") and len(t) == 4:
+        return (t[0], t[1], map_leaves(t[2], f), map_leaves(t[3], f))
+    return f(t)
+
+
+def collects_kernel_keys(t: Term, kernels_field: Term) -> bool:
+    """`t` contains the list of the position keys of ALL kernels in `kernels_field`:
+    written as a loop with `extend` (a `mut` term) or as the comprehension
+    [key for ker in kernels for key in ker.position_keys] that loop stands for."""
+    for x in subterms(t):
+        if x[0] == "mut" and x[2] == "extend" and x[3] and x[3][0][0] == "a" \
+                and x[3][0][2] == "position_keys" and x[3][0][1] == ("iter", kernels_field):
+            return True
+        if x[0] == "comp" and x[1] == "list" and len(x[3]) == 2:
+            g1, g2 = x[3]
+            src = ("a", ("iter", kernels_field), "position_keys")
+            if g1[1] == kernels_field and not g1[2] and g2[1] == src and not g2[2] \
+                    and x[2] == ("iter", src):
+                return True
+    return False
